@@ -142,7 +142,7 @@ func (f *Frame) callStatic(st *State, site ssa.CallInstruction, common *ssa.Call
 	}
 	c.W.noteInlined(key)
 	rst, res := nf.runBody(st.clone())
-	st.reach, st.mem = rst.reach, rst.mem
+	st.adopt(rst)
 	return f.wrapResults(common, res)
 }
 
@@ -334,7 +334,7 @@ func (f *Frame) appendOp(st *State, in ssa.Instruction, args []*Val, common *ssa
 		inPlace.reach = And(st.reach, fits)
 		grow.reach = And(st.reach, Not(fits))
 		m := c.mergeStates([]*State{inPlace, grow})
-		st.mem = m.mem
+		st.mem, st.epoch = m.mem, m.epoch
 		return &Val{K: KSlice, Ty: s.Ty, Base: Ite(fits, s.Base, nb), Off: Ite(fits, s.Off, c.idxLit(0)),
 			Len: newLen, Cap: Ite(fits, s.Cap, newCap)}
 	}
@@ -350,7 +350,7 @@ func (f *Frame) appendOp(st *State, in ssa.Instruction, args []*Val, common *ssa
 	inPlace.reach = And(st.reach, fits)
 	grow.reach = And(st.reach, Not(fits))
 	m := c.mergeStates([]*State{inPlace, grow})
-	st.mem = m.mem
+	st.mem, st.epoch = m.mem, m.epoch
 	return &Val{K: KSlice, Ty: s.Ty, Base: Ite(fits, s.Base, nb), Off: Ite(fits, s.Off, c.idxLit(0)),
 		Len: newLen, Cap: Ite(fits, s.Cap, newCap)}
 }
